@@ -56,7 +56,9 @@ class HObj:
         self.cls, self.f = cls, dict(fields or {})
 
     def copy(self):
-        return HObj(self.cls, self.f)
+        h = HObj(self.cls, self.f)
+        h.symbolic_model = getattr(self, 'symbolic_model', False)
+        return h
 
 
 class HList:
